@@ -153,7 +153,7 @@ def parse_blocks(lines):
             if w[0] == "G":
                 cur["state"] = int(w[1])
                 cur["step"] = int(w[21]) if len(w) > 21 else 0
-                cur["sim"] = int(w[22]) if len(w) > 22 else 0
+                cur["sim"] = (int(w[22]) if len(w) > 22 else 0) + 100000 * (int(w[23]) if len(w) > 23 else 0)
                 cur["tol"] = unhexd(w[8])
             elif w[0] == "R" and w[2].startswith("D"):
                 cur["R"][unhex(w[1])] = unhexd(w[2][1:])
@@ -215,6 +215,8 @@ def direct_oracle(spec, c):
     for p in spec["phases"]:
         prev[p["name"]] = p["moles"]
     stage_of_sim = {}
+    cur_phases = spec["phases"]
+    redefined = set()
     for b in blocks:
         if b["state"] in (2, 3) and not b["norow"]:
             # initial exchange / surface calculation: its result is what the reaction calculation starts from
@@ -243,9 +245,19 @@ def direct_oracle(spec, c):
             cur_sim, last_in_sim, last_step = sim, {}, {}
             stage_of_sim[sim] = len(stage_of_sim)
         stg = stage_of_sim[sim]
+        if stg >= 1 and stg - 1 < len(spec["stages"]) and "redef" in spec["stages"][stg - 1] and stg not in redefined:
+            # the assemblage was redefined for this calculation: its phases, targets, restrictions and amounts apply from here on
+            redefined.add(stg)
+            cur_phases = spec["stages"][stg - 1]["redef"]
+            for p in cur_phases:
+                prev[p["name"]] = p["moles"]
         incr = stg >= 1 and stg - 1 < len(spec["stages"]) and spec["stages"][stg - 1].get("incremental") and b["step"] > 1
         st["calcs"] += 1
-        for p in spec["phases"]:
+        if stg in redefined:
+            st["calcs_after_redefinition"] = st.get("calcs_after_redefinition", 0) + 1
+        if b["sim"] >= 100000:
+            st["calcs_in_later_run"] = st.get("calcs_in_later_run", 0) + 1
+        for p in cur_phases:
             nm = p["name"]
             if f"equi:{nm}" not in R:
                 continue
@@ -359,7 +371,7 @@ def direct_oracle(spec, c):
             for e in ents:
                 if e["keyword"] == "EQUILIBRIUM_PHASES_RAW" and e["number"] == 1:
                     fl = rawparse.flat(e)
-                    for p in spec["phases"]:
+                    for p in cur_phases:
                         key = f"component[{p['name']}]/moles"
                         if key in fl and p["name"] in last_in_sim:
                             st["dump_checked"] += 1
@@ -570,7 +582,7 @@ def run(ctx):
         hist["calcs"] += st["calcs"]
         for k, v in st["phase_states"].items():
             hist["phase_states"][k] = hist["phase_states"].get(k, 0) + v
-        for k in ("ex", "su", "ss_ideal", "ss_binary", "dump_checked", "initial_mismatch"):
+        for k in ("ex", "su", "ss_ideal", "ss_binary", "dump_checked", "initial_mismatch", "calcs_after_redefinition", "calcs_in_later_run"):
             hist[k] = hist.get(k, 0) + st.get(k, 0)
         hist["sys_vs_tot_max_rel"] = max(hist.get("sys_vs_tot_max_rel", 0.0), st.get("sys_vs_tot_max_rel", 0.0))
         if "local minimum" in c.get("warn", ""):
